@@ -52,7 +52,7 @@ CHECKS.append(persist("C10", "6/C10", "TLC explores every interleaving of mutati
 CHECKS += [
  session("C02", "6/C02", "TLC enumerates every interleaving of cget->cset cycles of 2-3 clients plus stale/future-version csets and plain sets on the contended key (one winner per version, no lost update, acceptance iff version matches via the reference layer); 2-4 unsynchronised real sessions run such cycles over the socket and TLC decides whether some atomic order of the requests explains every reply and the subscriber's event stream. Core histories around the largest version (imports put a key there; u64::MAX is mapped onto the top of the specification's integer range) are executed by the real core and validated against the core specification."),
  session("C13", "6/C13", "TLC checks on the session-layer model that every well-formed request on an established session gets exactly one terminal message of the kind the protocol assigns; real sessions send all message kinds of v0 and v1 with valid and invalid arguments, pipelined, 1-3 at a time; terminal messages are paired with requests by transaction id, their kind and content and every event stream are validated against the spec."),
- session("C15", "6/C15", "TLC checks the authorization gate, the refusal of requests outside the grants and that served requests touch only keys covered by the grants (documented relation); real sessions with minted tokens (valid grant sets, missing, garbage, forged, expired) mix authorised and unauthorised requests while an unrestricted observer reads the store back; validated by TLC."),
+ session("C15", "6/C15", "The containment of a requested pattern in a granted one is decided exhaustively: for every pair (legal grant, requested pattern) over {a,b,?,#} up to depth 3 (quick) / 4 (thorough) TLC checks that the transcription of auth::pattern_matches is sound (everything the requested pattern can reach is covered by the grant) and complete for keys, and the real function answers the same table (trace validated against the transcription). TLC checks the authorization gate, the refusal of requests outside the grants and that served requests touch only keys covered by the grants (documented relation); real sessions with minted tokens (valid grant sets, missing, garbage, forged, expired) mix authorised and unauthorised requests while an unrestricted observer reads the store back; validated by TLC."),
  session("C17", "6/C17", "The developers' debug assertions are state invariants of the core model (clean trees, never down) checked by TLC over every alphabet; offender sessions send odd requests in any order and a catalogue of undecodable lines while a witness session's round trips must keep being answered correctly (debug build; a panic of the core task is an observation the spec cannot explain)."),
 ]
 
